@@ -10,7 +10,8 @@ EXPLANATION = (
     "(same rule as R08.1, on idiff_strp/idiff_strf). R18.2: from each alternative of the leading-character switch of idiff_strp (`P`, `+`, `-`) "
     "the date-part scanner is reachable without passing the error exit, and only `-` sets the negation flag. R18.3: every unit letter "
     "idiff_strf can emit is accepted by idiff_strp in the state in which it is emitted, with the same multiplier on both sides "
-    "(D = 86400000, H = 3600000, M = 60000, S = 1000 ms; W = 7 D on input).")
+    "(D = 86400000, H = 3600000, M = 60000, S = 1000 ms; W = 7 D on input). R18.4: the longest output of dt_strf/dt_strf_ical (pad widths "
+    "plus separator stores, maximised over paths) fits the default scan window of dt_strp.")
 NOT_DECIDED = "digit-level parsing/printing of instants (dt_strp/dt_strf), value-level round trip; the behaviour itself"
 TRUSTED = ["clang 14 parser/CFG builder", "echse-facts extractor", "python rule engines in /verif/sa"]
 LEVEL_TEXT = ("Static verdict on necessary structural clauses of C18 for durations: 64-bit accumulation, every sign alternative reaches the "
@@ -183,6 +184,63 @@ def r18_1(prog, rep):
         rep.broken_("rule=R18.1 expected >=2 instances in dt-strpf.c, found %d" % v.n)
 
 
+def _max_written(f):
+    """Longest output of an instant printer: constant pad widths of ui32tpstr() plus single-character stores through the cursor,
+    maximised over all paths (path enumeration with the count as ghost)."""
+    from ..absw import AbsWalk
+    cfg = f.cfg
+    buf = f.params[0]["n"]
+
+    def effect(b, i, x, store):
+        add = 0
+        if x.get("k") == "call" and x.get("fn") == "ui32tpstr":
+            pad = const_eval(None, cfg.resolve(x["a"][3]))
+            if pad is None:
+                raise AnalysisBroken("%s: ui32tpstr pad is not constant" % f.name)
+            add = pad
+        elif x.get("k") == "bin" and x["op"] == "=":
+            l = strip_casts(cfg.resolve(x["l"]))
+            if l.get("k") == "un" and l["op"] == "*":
+                inner = strip_casts(l["e"])
+                if inner.get("k") == "un" and inner["op"] == "post++":
+                    c = const_eval(None, cfg.resolve(x["r"]))
+                    if c:   # the terminating NUL is no output
+                        add = 1
+        if add:
+            return {"$n": store.get("$n", 0) + add}
+        return None
+    w = AbsWalk(f, set(), init={"$n": 0}, effect=effect)
+    w.run()
+    return max(st.get("$n", 0) for st in w.exit_stores)
+
+
+def r18_4(prog, rep):
+    """The parser's default scan window (used when the caller does not know the length) covers the longest text the printers emit."""
+    rid = "R18.4"
+    rd = prog.fn("dt_strp", "dt-strpf.c")
+    cfg = rd.cfg
+    lenp = rd.params[2]["n"]
+    win = None
+    for b, i, x, line in cfg.all_elems():
+        for n in walk(cfg.resolve(x)):
+            if n.get("k") == "cond" and lv(strip_casts(n["c"])) == lenp:
+                win = (const_eval(None, n["F"]), n.get("line", line))
+    if win is None or win[0] is None:
+        raise AnalysisBroken("dt_strp: default window `%s ?: K` not found" % lenp)
+    for name in ("dt_strf", "dt_strf_ical"):
+        wr = prog.fn(name, "dt-strpf.c")
+        m = _max_written(wr)
+        if m < 8:
+            raise AnalysisBroken("%s: longest output computed as %d" % (name, m))
+        key = "dt_strp/default-window>=%s" % name
+        if win[0] >= m:
+            rep.ok(rid, key, rd.loc(win[1]), "default window %d covers the longest %s output (%d characters)" % (win[0], name, m))
+        else:
+            rep.fail(rid, key, rd.loc(win[1]),
+                     "dt_strp scans at most %d characters when the length is not given, %s() prints up to %d: the tail of a printed date-time "
+                     "(seconds/milliseconds) is not read back" % (win[0], name, m))
+
+
 def run(prog, rep, tier, snap):
     rep.rule("R18.1", "64-bit accumulation in the duration parser", 2)
     r18_1(prog, rep)
@@ -190,4 +248,6 @@ def run(prog, rep, tier, snap):
     r18_2(prog, rep)
     rep.rule("R18.3", "unit letters and multipliers agree between idiff_strf and idiff_strp", 8)
     r18_3(prog, rep)
+    rep.rule("R18.4", "the instant parser's default window covers the printers' longest output", 2)
+    r18_4(prog, rep)
 READY = True
